@@ -71,6 +71,25 @@ def rshape(text):
     return ','.join(out)
 
 
+def special_regs(text):
+    """classes of non-general registers named in a rendering (cr / dr / sreg / st / mm / xmm): part of the violation key,
+    so that a listed class about control/debug/segment-register moves does not cover ordinary register forms"""
+    import re
+    t = asm_text.tokenise(text, 'intel')
+    cls = set()
+    for o in t['ops']:
+        if o['k'] == 'reg':
+            n = o['name'].lower()
+            for pre, c in (('cr', 'cr'), ('dr', 'dr'), ('xmm', 'xmm'), ('mm', 'mm'), ('st', 'st')):
+                if re.match(pre + r'\(?\d', n) or n == pre:
+                    cls.add(c)
+                    break
+            else:
+                if n in ('es', 'cs', 'ss', 'ds', 'fs', 'gs'):
+                    cls.add('sreg')
+    return ','.join(sorted(cls))
+
+
 def judge(chk, recs, base=0):
     slim = [{'id': r['id'], 'dir': r['dir'], 'gas': r['gas'], 'cands': r['cands']} for r in recs]
     random.Random(chk.seed).shuffle(slim)
@@ -93,7 +112,11 @@ def report(chk, recs, verdicts):
             # rejections, crashes, empty results and segment-override / bracket-less renderings are parser-level causes
             specific = f['how'] == 'list' and '/seg' not in shp and 'nobracket' not in shp
             key = {'clause': f['clause'], 'dir': r['dir'], 'mn': ((rt['text'].split() or [r['mn']])[0] if rt['st'] == 'instr' else r['mn']) if specific else '',
-                   'how': f['how'], 'site': site, 'shape': shp}
+                   'how': f['how'], 'site': site, 'shape': shp, 'regs': special_regs(rt['text']) if rt['st'] == 'instr' else '',
+                   'feat': asmlib.line_features(r['cands'][f['k'] - 1]['h'], rt['text'] if rt['st'] == 'instr' else '')}
+            if key['feat'] == '' and key['regs'] == '' and not key['mn'] and '/seg' not in shp and 'nobracket' not in shp:
+                # an ordinary 32-bit form without any special feature: the class is per mnemonic
+                key['mn'] = (rt['text'].split() or [r['mn']])[0] if rt['st'] == 'instr' else r['mn']
             ks = json.dumps(key, sort_keys=True)
             if ks in seen:
                 continue
